@@ -45,9 +45,9 @@ type walker struct {
 	fresh   map[types.Object]bool
 	aliases map[types.Object]alias
 	// local function literals bound to a variable (x := func(...) {...})
-	localFns   map[types.Object]*ast.FuncLit
-	localUsed  map[types.Object]bool
-	inLit      int
+	localFns  map[types.Object]*ast.FuncLit
+	localUsed map[types.Object]bool
+	inLit     int
 }
 
 func copyLocks(m map[string]held) map[string]held {
